@@ -40,13 +40,18 @@ ZERO = {'Equal', 'NoSign'}
 POS = {'Greater', 'Plus'}
 
 
-def discr_names(body):
+def discr_names(body, F=None):
+    """variant names by discriminant value of the enums matched on in the predicate (and in its private helpers, when the fact file is given)"""
+    bodies = [body]
+    if F is not None:
+        bodies += [F.by_path[p_][0] for p_ in private_helpers_of(F, body)]
     out = {}
-    for bl in body['blocks']:
-        for s in bl['stmts']:
-            if s['k'] == 'assign' and s['rv']['k'] == 'discr':
-                for v in s['rv'].get('variants') or []:
-                    out[int(v['val'])] = v['name']
+    for bd in bodies:
+        for bl in bd['blocks']:
+            for s in bl['stmts']:
+                if s['k'] == 'assign' and s['rv']['k'] == 'discr':
+                    for v in s['rv'].get('variants') or []:
+                        out[int(v['val'])] = v['name']
     return out
 
 
@@ -76,7 +81,7 @@ def r1_r2(ctx, Fs):
         ok = False
         detail = ' <- '.join(chain)
         if chain and chain[0] == 'match-discriminant':
-            names = discr_names(b)
+            names = discr_names(b, F)
             # evaluate the decision tree for each discriminant value
             leaves = dtab.b_leaves(as_rf(v))
             subj = None
@@ -96,7 +101,7 @@ def r1_r2(ctx, Fs):
             ok = bool(table) and table == want and len(chain) == 2 and chain[1] == 'sign'
             detail = 'match %s(det): %s' % (chain[1] if len(chain) > 1 else '?', table)
         elif 'discr-cast' in chain:
-            names = discr_names(b)
+            names = discr_names(b, F)
             table = {nm: (val - 256 if val >= 128 else val) for val, nm in names.items()}
             want = {nm: (-1 if nm in NEG else 0 if nm in ZERO else 1 if nm in POS else None) for nm in table}
             i = chain.index('discr-cast')
@@ -218,6 +223,13 @@ def r4(ctx, Fs):
     lo, hi = pb['line'], pb.get('body_end_line') or pb.get('end_line') or pb['line']
     sites = []
     n = 0
+    helper_spans = []
+    for Fx in Fs.values():
+        pbx = Fx.body_by_suffix(PRED)
+        for hp in private_helpers_of(Fx, pbx):
+            hb_ = Fx.by_path[hp][0]
+            if hb_.get('file') == 'src/geometry.rs':
+                helper_spans.append((hb_['line'], hb_.get('body_end_line') or hb_.get('end_line') or hb_['line']))
     for root, dirs, files in os.walk(os.path.join(repo, 'src')):
         for fn in files:
             if not fn.endswith('.rs'):
@@ -243,6 +255,12 @@ def r4(ctx, Fs):
                 where_ok = False
                 if rel == 'src/geometry.rs' and (i <= header_end or lo <= i <= hi):
                     where_ok = True
+                if rel == 'src/geometry.rs' and not where_ok:
+                    # a private helper function of the predicate that exists per backend (`#[cfg(feature = ..)] fn sign_of(..)`): part of the predicate
+                    # (R1/R2 evaluate it inlined; R3 compares every other body across the builds)
+                    for hb in helper_spans:
+                        if hb[0] - 4 <= i <= hb[1]:
+                            where_ok = True
                 if rel == 'src/geometry.rs' and not where_ok:
                     # inside a helper macro of the predicate: allowed when every expansion of that macro lies inside the predicate (or inside another
                     # such macro) — R3 compares all other bodies across the builds, so an expansion elsewhere would show there as well
